@@ -168,3 +168,38 @@ void vf_harness(void) { VarE* a; const VarE* v; Var_assign(a, v); VF_CANARY(); }
     trusted=['~Array<Var> executed as its C01 contract; Var(const Var&) of a plain-data Var is a memcpy (Var.h)'],
 )
 UNITS += [assign_element]
+
+# ---- Var::clone(): detach, then clone the children into the DETACHED storage.
+# Typestate view of the result v: it starts as a handle sharing the original's storage (Var v(*this)); dup() gives it storage of its own;
+# `foreach(x in container) x = x.clone()` overwrites elements of whatever storage v refers to at that moment - if that is still the shared storage, the original's
+# children are replaced (and the later dup() copies handles to the very same sub-clones: original and clone share every nested container).
+clone_unit = Unit(
+    'Var_clone_order', 'C04',
+    cuts=[TYPES(), Cut('cl', VC, r'^Var Var::clone\(\) const\s*$',
+              rules=[(r'Var v\(\*this\);', 'g_private = 0; g_children_cloned = 0;', 1), (r'switch \(_type\)', 'switch (self_type)', 1),
+                     (r'v\._(s|a|o)->dup\(\);', 'V_DUP();', None),
+                     (r'foreach\s*\(Var& x, \*v\._(a|o)\)\s*x = x\.clone\(\);', 'V_CLONE_CHILDREN_IN_PLACE();', None), (r'return v;', 'return;', 1)])],
+    text=r'''
+#include "vf_base.h"
+@@types@@
+int g_private, g_children_cloned, g_wrote_shared;
+static void V_DUP(void) { g_private = 1; }        /* Array/Dic/String dup(): v gets a private copy of the storage (C01 contract of dup) */
+static void V_CLONE_CHILDREN_IN_PLACE(void) { if (!g_private) g_wrote_shared = 1;
+  __CPROVER_assert(g_private, "children are replaced by their clones only in storage the clone owns (after dup): the original is const");
+  g_children_cloned = 1; }
+void Var_clone(int self_type)
+__CPROVER_requires(g_wrote_shared == 0)
+/* deep copy: the result owns its storage, its children are clones living in that storage, and the original was not written */
+__CPROVER_ensures(!g_wrote_shared)
+__CPROVER_ensures((self_type == STRING || self_type == ARRAY || self_type == OBJ) ==> g_private)
+__CPROVER_ensures((self_type == ARRAY || self_type == OBJ) ==> g_children_cloned)
+__CPROVER_assigns(g_private, g_children_cloned, g_wrote_shared)
+@@cl@@
+void vf_harness(void) { int t; Var_clone(t); VF_CANARY(); }
+''',
+    entry='Var_clone', kind='proof',
+    desc='Var::clone for every type: strings, arrays and objects are detached (dup) BEFORE any child is replaced by its clone, every child of an array/object is cloned, the const original is never written',
+    functions=['Var::clone'],
+    trusted=['dup() gives private storage (C01); `foreach(x) x = x.clone()` abstracted to one in-place replacement of all children (recursion = the same contract)'],
+)
+UNITS += [clone_unit]
